@@ -4,8 +4,8 @@ the frame facts of each phase.  Core Lean only.
 -/
 import KcpVerif.Lemmas.KcpXmit
 
-namespace KcpVerif.Kcp
-open KcpVerif KcpVerif.Gen
+namespace KcpVerif.Live
+open KcpVerif KcpVerif.Gen KcpVerif.Kcp
 
 /-- phase 1: the ack list -/
 def flAck (k : Kcp) : AckSt :=
@@ -136,7 +136,7 @@ last thing phase 1 writes, and the scratch segment keeps its `sn`/`ts` -/
 theorem ackFlush_last (wnd : BitVec 16) (una : U32) (total : Nat) (l : List Ack) (i : Nat) (st : AckSt)
     (a : Ack) (hl : l.getLast? = some a) (hi : i + l.length = total)
     (hp : (ackFlush wnd una total l i st).f.panic = false) :
-    (∃ pre, (ackFlush wnd una total l i st).f.wire = pre ++ encodeHdr st.f.k.conv st.sc.cmd 0 wnd a.ts a.sn una 0) ∧
+    (∃ pre, (ackFlush wnd una total l i st).f.liveWire = pre ++ encodeHdr st.f.k.conv st.sc.cmd 0 wnd a.ts a.sn una 0) ∧
     (ackFlush wnd una total l i st).sc.sn = a.sn ∧ (ackFlush wnd una total l i st).sc.ts = a.ts := by
   induction l generalizing i st with
   | nil => simp at hl
@@ -162,32 +162,32 @@ theorem ackFlush_last (wnd : BitVec 16) (una : U32) (total : Nat) (l : List Ack)
 
 /-! ### how the buffer evolves across the phases -/
 
-/-- the wire stream only grew and a panic stays (the connection fields may have changed) -/
+/-- the liveWire stream only grew and a panic stays (the connection fields may have changed) -/
 structure Fl.Grow (f g : Fl) : Prop where
-  wire  : ∃ t, g.wire = f.wire ++ t
+  liveWire  : ∃ t, g.liveWire = f.liveWire ++ t
   panic : f.panic = true → g.panic = true
 
-theorem Fl.Ext.grow {f g : Fl} (h : Fl.Ext f g) : Fl.Grow f g := ⟨h.wire, h.panic⟩
+theorem Fl.Ext.grow {f g : Fl} (h : Fl.Ext f g) : Fl.Grow f g := ⟨h.liveWire, h.panic⟩
 
 theorem Fl.Grow.refl (f : Fl) : Fl.Grow f f := ⟨⟨[], by simp⟩, id⟩
 
 theorem Fl.Grow.trans {f g h : Fl} (a : Fl.Grow f g) (b : Fl.Grow g h) : Fl.Grow f h := by
   refine ⟨?_, fun p => b.panic (a.panic p)⟩
-  obtain ⟨t, ht⟩ := a.wire
-  obtain ⟨u, hu⟩ := b.wire
+  obtain ⟨t, ht⟩ := a.liveWire
+  obtain ⟨u, hu⟩ := b.liveWire
   exact ⟨t ++ u, by rw [hu, ht, List.append_assoc]⟩
 
-theorem Fl.Grow.setK (f : Fl) (k : Kcp) : Fl.Grow f { f with k := k } := ⟨⟨[], by simp [Fl.wire]⟩, id⟩
+theorem Fl.Grow.setK (f : Fl) (k : Kcp) : Fl.Grow f { f with k := k } := ⟨⟨[], by simp [Fl.liveWire]⟩, id⟩
 
 theorem Fl.Grow.noPanic {f g : Fl} (h : Fl.Grow f g) (hp : g.panic = false) : f.panic = false := by
   cases hq : f.panic with
   | false => rfl
   | true => rw [h.panic hq] at hp; exact absurd hp (by simp)
 
-/-- a chunk written at some point stays on the wire -/
-theorem Fl.Grow.keeps {f g : Fl} (h : Fl.Grow f g) {pre x : Bytes} (hw : f.wire = pre ++ x) :
-    ∃ post, g.wire = pre ++ x ++ post := by
-  obtain ⟨t, ht⟩ := h.wire
+/-- a chunk written at some point stays on the liveWire -/
+theorem Fl.Grow.keeps {f g : Fl} (h : Fl.Grow f g) {pre x : Bytes} (hw : f.liveWire = pre ++ x) :
+    ∃ post, g.liveWire = pre ++ x ++ post := by
+  obtain ⟨t, ht⟩ := h.liveWire
   exact ⟨t, by rw [ht, hw]⟩
 
 theorem flAck_k (k : Kcp) : (flAck k).f.k = k := (ackFlush_k _ _ _ _ _ _).1
@@ -265,11 +265,11 @@ theorem grow_F3b_end (k : Kcp) (full : Bool) (now : U32) : Fl.Grow (flF3b k now)
 theorem flush_panic (k : Kcp) (full : Bool) (now : U32) : (flush k full now).panic = (flF5 k full now).panic := by
   rw [flush_eq]
 
-/-- the concatenation of all datagrams handed to `output` is the wire stream of the buffer -/
+/-- the concatenation of all datagrams handed to `output` is the liveWire stream of the buffer -/
 theorem flush_wire (k : Kcp) (full : Bool) (now : U32) :
-    (flush k full now).outs.flatten = (flF5 k full now).wire := by
+    (flush k full now).outs.flatten = (flF5 k full now).liveWire := by
   rw [flush_eq]
-  simp only [Fl.wire]
+  simp only [Fl.liveWire]
   split
   · simp
   · rename_i h
@@ -360,4 +360,4 @@ theorem flAd_prefix (k : Kcp) (now : U32) : ∃ t, (flAd k now).buf = k.snd_buf 
     (flF3 k now).k.snd_queue (flF3 k now).k.snd_buf (flF3 k now).k.snd_nxt 0
   exact ⟨t, by rw [ht, h]⟩
 
-end KcpVerif.Kcp
+end KcpVerif.Live
